@@ -6,20 +6,29 @@ from oracle_util import *  # noqa
 from protocol import from_real
 
 ID = "C16"
-LEAN_MODULE = "SCoda.Props.C16"
+LEAN_MODULE = ["SCoda.Props.C16", "SCoda.Props.C16b"]
 CLAUSES = [
     ("a message-wise copy holds the same message values as its original (equals: C17.refl)", ["SCoda.C16.copy_derive", "SCoda.C16.copyAll_spec"]),
     ("a fresh-allocating derivation shares no message with anything that existed; sharing (the unrepaired split, D13) is not a derivation",
      ["SCoda.C16.derive_disjoint", "SCoda.C16.sharing_is_not_derivation"]),
     ("frame: no history of own-writing operations on one side changes a message of the other side (both directions: the statement is symmetric in the two objects)",
      ["SCoda.C16.frame", "SCoda.C16.independent", "SCoda.C16.editRel_ownStep", "SCoda.C16.editAbs_ownStep"]),
-    ("classification: every public operation of the real classes is own-writing, and copy/split/sequences_split_bars/Bar.copy/Track.copy/"
-     "Composition.copy allocate fresh messages (decided on the real objects by the id()/snapshot harness, not by a theorem)", None),
+    ("classification: the eight derivation routes (Message.copy, AbstractSequence.copy, Sequence.copy, Sequence.split, "
+     "Sequence.sequences_split_bars, Bar.copy, Track.copy, Composition.copy) return values that share nothing with what existed — a freshness "
+     "typing over facts regenerated from the source on every run (Gen/AliasFacts.lean) with a kernel-checked certificate; no module-level state "
+     "in the modelled files; an operation can only write what it reaches (frame). The same is checked on the real objects by the id()/snapshot "
+     "harness and a walk of the whole mutable object graph reachable from either side",
+     ["SCoda.C16.alias_cert_closed", "SCoda.C16.derivations_return_fresh", "SCoda.C16.derivations_seen", "SCoda.C16.sources_seen",
+      "SCoda.C16.no_global_state"]),
 ]
 RULE = ("originals (<=6 notes, 1-2 channels, signatures) x derivation routes (Sequence.copy, split, sequences_split_bars with "
         "either re-quantisation setting, Bar.copy, Track.copy, Composition.copy) x histories of <=8 public operations on either "
         "side; non-trivial = history contains an in-place mutator (transpose, set_channel, scale, edit, quantise, cutoff)")
-ASSUMPTIONS = ["CPython object identity (id()) is what 'shared' means; the Lean value model has no aliasing, so this property is "
+ASSUMPTIONS = ["freshness typing rules are trusted as a description of Python aliasing: `<x>.copy()` is fresh provided every copy method in the "
+               "route list returns a fresh value (checked for each), constructor calls with fresh/scalar arguments are fresh, reads of "
+               "scalar attributes (numbers, strings, enum members, flags) are immutable values, anything else read from self or a "
+               "non-scalar parameter may be shared",
+               "CPython object identity (id()) is what 'shared' means; the Lean value model has no aliasing, so this property is "
                "decided by the identity/snapshot harness on the real objects plus the value-level model of copy/split",
                "histories whose sequence-valued arguments come from the other side (concatenate/merge share messages by design) are out of scope"]
 ROUTES = ["copy", "split", "bars", "bars-requant", "bar-copy", "track-copy", "composition-copy"]
@@ -38,6 +47,37 @@ def ids_of(s):
     if not s._rel_stale and s._rel is not None:
         out |= {id(m) for m in s._rel._messages}
     return out
+
+
+def reach(root):
+    """ids of the mutable objects reachable from `root` through attributes and container elements:
+    instances of scoda classes (enum members excluded), lists, dicts, sets.  Python can only mutate what it can
+    reach, so two objects with disjoint reach sets cannot influence one another (the heap theorem `C16.frame`)."""
+    import enum
+    seen = {}
+    stack = [root]
+    while stack:
+        o = stack.pop()
+        if id(o) in seen or o is None or isinstance(o, (int, float, str, bytes, bool, enum.Enum, type)):
+            continue
+        mod = type(o).__module__ or ""
+        if isinstance(o, (list, tuple, set, frozenset)):
+            if not isinstance(o, (tuple, frozenset)):
+                seen[id(o)] = o
+            stack.extend(o)
+        elif isinstance(o, dict):
+            seen[id(o)] = o
+            stack.extend(o.keys())
+            stack.extend(o.values())
+        elif mod.startswith("scoda"):
+            seen[id(o)] = o
+            d = getattr(o, "__dict__", None)
+            if d is not None:
+                stack.extend(d.values())
+            for sl in getattr(type(o), "__slots__", ()):
+                if hasattr(o, sl):
+                    stack.append(getattr(o, sl))
+    return seen
 
 
 def derive(route, orig, rng_cuts):
@@ -100,6 +140,29 @@ def o_independent(inp):
             shared |= ids_of(w) & ids_of(d)
     if shared:
         fails.append(("shared", f"{len(shared)} Message objects shared between the original and the {route} result"))
+    # full object-graph walk: no mutable object (message, message list, view object, container) is reachable from both sides
+    for wi, w in enumerate(watched):
+        rw = reach(w)
+        for di, d in enumerate(derived):
+            common = set(rw) & set(reach(d))
+            if common:
+                kinds = sorted({type(rw[c]).__name__ for c in common})
+                fails.append(("reach", f"{route}: original {wi} and derived {di} share {len(common)} mutable object(s): {kinds}"))
+                break
+        else:
+            continue
+        break
+    for a_i in range(len(derived)):
+        for b_i in range(a_i + 1, len(derived)):
+            ra = reach(derived[a_i])
+            common = set(ra) & set(reach(derived[b_i]))
+            if common:
+                kinds = sorted({type(ra[c]).__name__ for c in common})
+                fails.append(("reach", f"{route}: derived pieces {a_i} and {b_i} share {len(common)} mutable object(s): {kinds}"))
+                break
+        else:
+            continue
+        break
     # mutate one side, watch the other
     side = inp.get("side", "derived")
     targets, others = (derived, watched) if side == "derived" else (watched, derived)
